@@ -75,8 +75,11 @@ class Verifier(Calls):
             return SV(Val.bytesv(z3.Const("p_" + name, S)), "bytes")
         if kind == "none":
             return SV(Val.none, "none")
-        if kind == "tuple" or kind == "seq":
-            return SV(Val.tup(z3.Const("p_" + name, SeqV)), tag)
+        if kind in ("tuple", "seq", "ftuple"):
+            v_ = SV(Val.tup(z3.Const("p_" + name, SeqV)), tag)
+            if kind == "ftuple":
+                self.assume(z3.Length(z3.Const("p_" + name, SeqV)) == len(tag.strip()[1:-1].split(",")))
+            return v_
         if kind == "class":
             return SV(Val.cls(z3.Const("p_" + name, I)), "class")
         if kind == "opt":
@@ -153,8 +156,10 @@ class Verifier(Calls):
             fact = Val.is_intv(t)
         elif kind == "bool":
             fact = Val.is_boolv(t)
-        elif kind == "tuple":
+        elif kind in ("tuple", "ftuple"):
             fact = Val.is_tup(t)
+            if kind == "ftuple":
+                fact = z3.And(fact, z3.Length(Val.elems(t)) == len(ty.strip()[1:-1].split(",")))
         elif kind == "bytes":
             fact = Val.is_bytesv(t)
         if fact is not None:
@@ -300,7 +305,7 @@ class Verifier(Calls):
         """the returned value has the declared result type"""
         kind, arg = parse_tag(tag)
         if isinstance(v, TupV):
-            return z3.BoolVal(kind in ("tuple", "any", "seq"))
+            return z3.BoolVal(kind in ("tuple", "ftuple", "any", "seq", "opt") or kind is None)
         if not isinstance(v, SV):
             return z3.BoolVal(kind in ("any", None))
         t = v.term
@@ -317,7 +322,7 @@ class Verifier(Calls):
             return Val.is_strv(t)
         if kind == "bytes":
             return Val.is_bytesv(t)
-        if kind in ("tuple", "seq", "iter"):
+        if kind in ("tuple", "seq", "iter", "ftuple"):
             return Val.is_tup(t)
         if kind == "opt":
             return z3.Or(t == Val.none, self.conforms(v, arg))
